@@ -226,7 +226,7 @@ def one_case(args):
 def run(res):
     exe = build.fastpasta("rel")
     wd = scratch("c15")
-    n = 14 if res.tier == "quick" else 150
+    n = 14 if res.tier == "quick" else 600
     for o in pmap(one_case, [(exe, wd, res.seed, c, res.tier) for c in range(n)]):
         res.evaluations += o["runs"]
         res.count("round_trips", o["roundtrips"])
